@@ -654,16 +654,30 @@ func genCache(g *fact.Gen) {
 			}
 			return c.cond(is, "", map[string]string{"err==nil": "statOk", "info.Size()": "infoSize", "size": "size"})
 		})
+	reuseIf := findIf(copyFile, func(is *ast.IfStmt) bool {
+		return strings.HasSuffix(src(is.Body), "returnnil}") && strings.Contains(src(is.Cond), "out2")
+	})
 	c.def("copyReuse", "copyFile: out2 = hash of the existing file; ⇒ return nil without writing", "{α : Type} [DecidableEq α] (out out2 : α) : Bool",
 		"decide (out = out2)", func() (string, string) {
-			is := findIf(copyFile, func(is *ast.IfStmt) bool {
-				return src(is.Body) == "{returnnil}" && strings.Contains(src(is.Cond), "out2")
-			})
-			if is == nil || !strings.Contains(body(copyFile), "iff,err:=os.Open(name);err==nil{h:=sha256.New()io.Copy(h,f)f.Close()varout2OutputIDh.Sum(out2[:0])if") {
+			if reuseIf == nil || !strings.Contains(body(copyFile), "iff,err:=os.Open(name);err==nil{h:=sha256.New()io.Copy(h,f)f.Close()varout2OutputIDh.Sum(out2[:0])if") {
 				return "", "re-hash of the existing file not found"
 			}
-			return c.cond(is, "", map[string]string{"out": "out", "out2": "out2"})
+			return c.cond(reuseIf, "", map[string]string{"out": "out", "out2": "out2"})
 		})
+	c.def("copyReuseRefresh", "copyFile: what the reuse branch does to the mtime of the existing data file before `return nil`: 0 = nothing, 1 = `c.used(name)`, 2 = `os.Chtimes(name, c.now(), c.now())`", ": Nat", "0", func() (string, string) {
+		if reuseIf == nil {
+			return "", "reuse branch not found"
+		}
+		switch src(reuseIf.Body) {
+		case "{returnnil}":
+			return "0", ""
+		case "{c.used(name)returnnil}":
+			return "1", ""
+		case "{os.Chtimes(name,c.now(),c.now())returnnil}":
+			return "2", ""
+		}
+		return "", "reuse branch has an unrecognised shape: " + g.Pretty(reuseIf.Body)
+	})
 	c.def("copyTrunc", "copyFile: ⇒ `mode |= os.O_TRUNC` (mode = O_RDWR|O_CREATE)", "(statOk : Bool) (infoSize size : Int) : Bool",
 		"(statOk && decide (infoSize > size))", func() (string, string) {
 			is := findIf(copyFile, func(is *ast.IfStmt) bool { return src(is.Body) == "{mode|=os.O_TRUNC}" })
